@@ -3,6 +3,7 @@ package topics
 
 import (
 	"errors"
+	"io"
 	"os"
 	"strconv"
 	"strings"
@@ -16,7 +17,8 @@ type PredefinedTopics map[string]map[uint16]string
 
 // Add adds a new predefined topic to the map.
 func (t PredefinedTopics) Add(clientID, topicName string, topicID uint16) {
-	if _, ok := t[clientID]; !ok {
+	// A client section without entries in a YAML file is a nil map.
+	if t[clientID] == nil {
 		t[clientID] = map[uint16]string{}
 	}
 	t[clientID][topicID] = topicName
@@ -86,6 +88,10 @@ func ReadPredefinedTopicsFile(file string) (PredefinedTopics, error) {
 
 	result := PredefinedTopics{}
 	err = yaml.NewDecoder(f).Decode(result)
+	// A file without any YAML document (empty, comments only) has no entries.
+	if err == io.EOF {
+		err = nil
+	}
 	return result, err
 }
 
